@@ -285,8 +285,11 @@ def run(chk, prog):
         bodyq = evq.apply(jq[0][2][0], [P("$p"), P("$ret")], module=FP.module, cls=FP)
         derq = show(bodyq)[:200]
         arrs = [x for x in subterms(bodyq) if is_call(x, "array") and x[2] and is_t(x[2][0], "list") and len(x[2][0][1]) == 2]
-        outs = [x for x in subterms(rq.ret) if is_call(x, "array") and x[2] and is_t(x[2][0], "list") and [y for y in x[2][0][1]] in ([C(True), C(False)], [C(False), C(True)])]
-        okq = len(arrs) == 1 and len(outs) >= 1
+        # the enumerated outcomes are the PRIMAL of the Dual handed to the (vmapped) continuation - not any [True, False] array that occurs (zeros_like(...) of one does)
+        duals_ = [x for x in subterms(rq.ret) if is_t(x, "ctor") and x[1] == "Dual" and len(x[2]) == 2]
+        prim_arrays = [d_[2][0] for d_ in duals_] + [d_[2][0][1] for d_ in duals_ if is_t(d_[2][0], "elem")]
+        outs = [x for x in prim_arrays if is_call(x, "array") and x[2] and is_t(x[2][0], "list") and len(x[2][0][1]) == 2 and all(is_t(y, "const") and isinstance(y[1], bool) for y in x[2][0][1])]
+        okq = len(arrs) == 1 and len(outs) >= 1 and all(sorted(y[1] for y in o_[2][0][1]) == [False, True] for o_ in outs)
         if okq:
             w0, w1 = (lin(y) for y in arrs[0][2][0][1])
             P1, Q1 = {frozenset([P("$p")]): 1}, {frozenset(): 1, frozenset([P("$p")]): -1}
